@@ -53,6 +53,8 @@ class Recorder:
     # ---- cases -------------------------------------------------------------------------------
     def case(self, key: Any, nontrivial: bool) -> None:
         self.evaluations += 1
+        if self.evaluations == 1:
+            self._first_case = jsonable(key)
         if nontrivial:
             self.nontrivial.add(h64(key))
 
@@ -119,7 +121,7 @@ class Recorder:
             "counters": dict(self.counters),
             "monitors": self.monitors,
             "violations": self.violations,
-            "samples": self.samples,
+            "samples": self.samples or ([{"kind": "first-case", "case": self._first_case}] if getattr(self, "_first_case", None) is not None else []),
             "inconclusive": self.inconclusive,
             "flags": jsonable(self.flags),
         }
